@@ -390,7 +390,9 @@ func runC17(c *Ctx) {
 		c.check(okF, "C17.freeze-subtree", "extension.freeze freezes its subtree before itself", f.Pos(), "next.freeze() on every path to frozen", "an extension is marked frozen while the subtree below it stays dirty: a snapshot shares nodes that later writes modify in place")
 	}
 	if f := c.mustFn(pkg, "branch", "freeze"); f != nil {
-		fr := c.calls(f, func(cc *ssa.CallCommon) bool { return methodName(cc) == "freeze" && strings.HasPrefix(render(cc.Value), "$r.children[") })
+		fr := c.calls(f, func(cc *ssa.CallCommon) bool {
+			return methodName(cc) == "freeze" && strings.HasPrefix(render(cc.Value), "$r.children[")
+		})
 		c.check(len(fr) >= 1, "C17.freeze-subtree", "branch.freeze freezes its children", f.Pos(), "children[i].freeze()", "a branch is frozen without its children")
 	}
 	// ---- the copy made for a write carries every content field
